@@ -273,7 +273,11 @@ struct Run
 		e.dispatches.push_back(u);
 		if(u.call >= 0) ++calls[u.call].dispatched;
 		log << " t" << me() << ":disp#" << serial;
+		// a listener that enqueues a follow-up event while the processing call that runs it is in progress (the "very common
+		// pattern" of chained events): that enqueue, too, must wake a waiter
+		if(value == 777 && ! failed) { followUps = true; doEnqueue(serial & 1, 778); }
 	}
+	bool followUps = false;
 	void listenerExit(int serial) {
 		if(serial < 1 || serial > (int)events.size()) return;
 		for(auto & u : ev(serial).dispatches) if(u.thread == me() && u.t1 < 0) u.t1 = now();
@@ -733,7 +737,7 @@ Grammar makeGrammar(const std::string & prop)
 	};
 	g.levels.push_back(top);
 	Level th;
-	const ArgSpec key(0, 1), val(0, 999);
+	const ArgSpec key(0, 1), val(0, 999, 777, 777, 15); // 777: the listener of this event enqueues one follow-up event while it runs
 	if(prop == "C07") {
 		th.kinds = {
 			{ C_ENQ, "enqueue", 12, key, val, ArgSpec(0, 0), -1, 0 },
@@ -820,6 +824,7 @@ Verdict run(const Program & p, const std::string & prop)
 		cls(r.emptyDuringDispatch, "observation_overlaps_dispatching_call");
 		cls(r.sentinels > 0, "waiters_released_by_sentinel");
 		cls(r.heter, "heterogeneous_queue");
+		cls(r.followUps, "listener_enqueued_a_follow_up_event_during_a_processing_call");
 		cls(r.orderedList, "ordered_queue_list");
 		cls(r.knownFifoPutBack, "known_finding_fifo_inversion_after_putback_by_another_thread");
 		cls(r.emptyDuringPredicateCall, "emptyQueue_true_overlapping_a_processIf_or_processUntil_call_not_judged");
@@ -843,10 +848,15 @@ Verdict run(const Program & p, const std::string & prop)
 Op mk(int kind, int a = 0, int b = 0, int c = 0) { Op o; o.kind = kind; o.a = a; o.b = b; o.c = c; return o; }
 Op thread(std::initializer_list<Op> body) { Op t = mk(T_THREAD); t.body.assign(body.begin(), body.end()); return t; }
 
+// programs whose interesting schedules need two preemptions: they are enumerated with K = 2 also in the quick tier
+std::vector<int> g_templateDeep;
 std::vector<Program> makeTemplates(const std::string & prop)
 {
 	std::vector<Program> out;
+	g_templateDeep.clear();
+	bool deep = false;
 	auto add = [&](int pre, std::initializer_list<Op> threads) {
+		g_templateDeep.push_back(deep ? 1 : 0);
 		Program p;
 		for(int i = 0; i < pre; ++i) p.ops.push_back(mk(T_PRE_ENQ, i & 1, 100 + i));
 		for(const Op & t : threads) p.ops.push_back(t);
@@ -878,6 +888,20 @@ std::vector<Program> makeTemplates(const std::string & prop)
 			// waiter woken by the enqueue drains nothing, the put-back must wake the other one)
 			add(0, { thread({ w }), thread({ w }), thread({ enq0, mk(C_PROCESSIF, 1, 0) }) });
 			add(0, { thread({ w }), thread({ w }), thread({ enq0, mk(C_PROCESSUNTIL, 0, 0) }) });
+			// two waiters and a consumer that polls: the first enqueue wakes one waiter, which finds the event already inside the
+			// poller's processing call and leaves; the second enqueue arrives while that call is still in progress and must wake the
+			// other waiter (an enqueue that skips the notification "because a processing call is in progress": seeds C07-h, C07-k)
+			add(0, { thread({ w }), thread({ w }), thread({ enq0, enq1 }), thread({ mk(C_PROCESS) }) });
+			add(0, { thread({ w }), thread({ w }), thread({ enq0 }), thread({ mk(C_PROCESSONE) }), thread({ enq1 }) });
+			// the second event is enqueued by the listener of the first (value 777), i.e. from inside the processing call
+			add(0, { thread({ w }), thread({ w }), thread({ mk(C_ENQ, 0, 777), mk(C_PROCESS) }) });
+			add(0, { thread({ w }), thread({ w }), thread({ mk(C_ENQ, 0, 777), mk(C_PROCESSONE) }) });
+			add(0, { thread({ w }), thread({ w }), thread({ mk(C_ENQ, 0, 777) }) });
+			add(0, { thread({ w }), thread({ w }), thread({ enq0 }), thread({ mk(C_PROCESS) }), thread({ enq1 }) });
+			add(0, { thread({ w }), thread({ w }), thread({ enq0, mk(C_PROCESS) }), thread({ enq1 }) });     // one preemption suffices here
+			add(0, { thread({ w }), thread({ w }), thread({ enq0, mk(C_PROCESSONE) }), thread({ enq1 }) });
+			add(1, { thread({ w }), thread({ mk(C_PROCESS) }), thread({ enq0 }) });
+			add(1, { thread({ w }), thread({ mk(C_PROCESSUNTIL, 2, 0) }), thread({ enq0 }) });
 		}
 	}
 	else if(prop == "C11") {
@@ -917,6 +941,7 @@ std::string enumerate(const std::string & prop, const std::function<bool (const 
 	if(const char * e = getenv("VERIF_ENUM_SHARD")) { if(sscanf(e, "%d/%d", &shard, &shards) != 2 || shards < 1) { shard = 0; shards = 1; } }
 	const std::vector<Program> templates = makeTemplates(prop);
 	long index = 0, runs = 0, pruned = 0;
+	int Kt = K;
 	bool stop = false;
 	std::function<void (Program &, std::vector<std::pair<long, int> > &, int)> dfs = [&](Program & p, std::vector<std::pair<long, int> > & pre, int depth) {
 		if(stop) return;
@@ -927,7 +952,7 @@ std::string enumerate(const std::string & prop, const std::function<bool (const 
 		const long steps = std::min<long>(g_lastSteps, 4000);
 		const int threads = g_lastThreads;
 		if(depth > 0 && g_lastEffective < depth) { ++pruned; return; }
-		if(depth >= K) return;
+		if(depth >= Kt) return;
 		const long from = pre.empty() ? 1 : pre.back().first + 1;
 		for(long s = from; s <= steps && ! stop; ++s) for(int t = 1; t <= threads && ! stop; ++t) {
 			pre.push_back(std::make_pair(s, t));
@@ -935,14 +960,16 @@ std::string enumerate(const std::string & prop, const std::function<bool (const 
 			pre.pop_back();
 		}
 	};
-	for(const Program & tpl : templates) for(int cfg = 0; cfg < 3 && ! stop; ++cfg) for(int order = 0; order < 2 && ! stop; ++order) {
+	for(size_t ti = 0; ti < templates.size(); ++ti) for(int cfg = 0; cfg < 3 && ! stop; ++cfg) for(int order = 0; order < 2 && ! stop; ++order) {
+		const Program & tpl = templates[ti];
 		if(index++ % shards != shard) continue;
+		Kt = (ti < g_templateDeep.size() && g_templateDeep[ti] && order == 0 && cfg < 2) ? std::max(K, 2) : K;
 		Program p = tpl;
 		p.params = { cfg, 0, order, 77 };
 		std::vector<std::pair<long, int> > pre;
 		dfs(p, pre, 0);
 	}
-	return std::to_string(templates.size()) + " thread programs x 3 queue configurations x 2 orders for forced switches (lowest / highest runnable thread first), every schedule with <= " + std::to_string(K) + " preemption(s) (shard " + std::to_string(shard) + "/" + std::to_string(shards)
+	return std::to_string(templates.size()) + " thread programs x 3 queue configurations x 2 orders for forced switches (lowest / highest runnable thread first), every schedule with <= " + std::to_string(K) + " preemption(s) (<= 2 for the programs marked deep, on the first two queue configurations, lowest thread first) (shard " + std::to_string(shard) + "/" + std::to_string(shards)
 		+ ": " + std::to_string(runs) + " runs, " + std::to_string(pruned) + " ineffective preemptions pruned); time-outs fire only when nothing can run";
 }
 } // namespace
